@@ -135,6 +135,15 @@ func (o *OracleC16) OnOut(n *Node, st *Step, out *Out) {
 				o.viol(n, "proposals_closer_than_minimum", "height %d proposed %.3f s after height %d, the minimum block time is %.3f s (tolerance %.3f s)", p.H, float64(gap)/1e9, p.H-1, float64(T)/1e9, float64(tol)/1e9)
 				return
 			}
+			if st.Op == OpNewTx && st.Evicted && cur.ntx == 0 {
+				// the pool notified and the transaction was gone when the library looked: "a
+				// notification produces a proposal promptly" and "no empty proposal before the
+				// maximum" cannot both be met; the prompt (empty) proposal is what the property's
+				// notification clause asks for and is not judged against the other clause
+				s.note("prompt_empty_proposal_after_evicted_notification")
+				s.st.Exercised = true
+				return
+			}
 			if X > 0 && cur.ntx == 0 && gap < X-tol {
 				o.viol(n, "empty_proposal_before_maximum", "height %d: empty proposal %.3f s after the previous one, the maximum block time is %.3f s (tolerance %.3f s)", p.H, float64(gap)/1e9, float64(X)/1e9, float64(tol)/1e9)
 				return
